@@ -1,8 +1,9 @@
 """C10 — every tabulated quadrature rule has its full degree of exactness (exhaustive over the tables).
 
 R10.1  extraction: all six WEIGHTS_* initialisers folded entry by entry to IEEE doubles as rustc does.
-R10.2  consumption model: from the integrator closures (lin-form with a symbolic (a0, a1) pair) — which
-       component is the abscissa, which the weight, the symmetric expansion and its exact zero test.
+R10.2  consumption model: the whole driver executed abstractly over a synthetic table of symbolic pairs (rules/quadmodel) — which
+       component is the abscissa, which the weight, the symmetric expansion and its exact zero test, the per-rule sum; nothing is
+       looked up by name or syntactic shape (explicit loops, helper functions and iterator chains are all the same to it).
 R10.3  per rule at position n, *as consumed*: n points, distinct, inside the domain, positive weights, all
        moments 0..2n-1 equal the exact moments; every node/weight matches the reference Gauss rule derived
        from the three-term recurrence (Golub–Welsch, 40+ digits, itself validated against the moments).
